@@ -277,7 +277,11 @@ def build_over(V, spec, negate: int = 0, quant: Optional[str] = None, negate_des
                 for _ in range(negate):
                     e = not_(e) if neg_form == "not_" else ~e
                 conds = [e]
-        if desc == "entity":
+        if desc == "term":
+            # a predicate-form term is the whole description: the(T(From(d), f=v)) / an(T(From(d), f=v))
+            d = sel[0]
+            desc = "entity"
+        elif desc == "entity":
             d = entity(sel[0], *conds)
         else:
             d = set_of(sel, *conds)
